@@ -10,8 +10,83 @@ LIB_CRATES = [
 ]
 
 
+VERIF = os.path.dirname(os.path.dirname(os.path.abspath(__file__)))
+PINNED_ITEMS = os.path.join(VERIF, "tables", "item_paths.json")
+IDENT_END = r"(?![A-Za-z0-9_])"
+
+
+def item_names(c):
+    """(type paths, function / constant / static paths) defined by one crate's fact file"""
+    adts = {a["name"] for a in c.get("adts", [])}
+    fns = {b["name"] for b in c.get("bodies", []) if "{closure" not in b["name"]} | {h["name"] for h in c.get("hir", []) if "{closure" not in h["name"]}
+    fns |= {x["name"] for k in ("statics", "consts") for x in c.get(k, [])}
+    return adts, fns
+
+
+def compute_aliases(d):
+    """Items that moved to another module since the pinned tree: {current path: pinned path}.  The rules name their anchors by the paths of the pinned
+    tree; a type or function that is found under a new module path, while the pinned path has disappeared and crate, (type and) simple name are the same
+    and unique, is the same anchor - its facts are presented under the pinned path.  Cached in the fact directory (one per tree digest)."""
+    import re
+    cache = os.path.join(d, "aliases.json")
+    if os.path.exists(cache) and (not os.path.exists(PINNED_ITEMS) or os.path.getmtime(cache) >= os.path.getmtime(PINNED_ITEMS)):
+        return json.load(open(cache))
+    if not os.path.exists(PINNED_ITEMS):
+        return {}
+    pinned = json.load(open(PINNED_ITEMS))
+    pin_adts, pin_fns = set(pinned["adts"]), set(pinned["fns"])
+    cur_adts, cur_fns = set(), set()
+    for f in sorted(os.listdir(d)):
+        if f.endswith(".json") and f not in ("c_facts.json", "aliases.json"):
+            a, b = item_names(json.load(open(os.path.join(d, f))))
+            cur_adts |= a
+            cur_fns |= b
+    aliases = {}
+
+    def tail(n):
+        segs = n.split("::")
+        return (segs[0], tuple(segs[-2:]) if len(segs) > 2 and segs[-2][:1].isupper() else (segs[-1],))
+    gone = {}
+    for q in pin_adts - cur_adts:
+        gone.setdefault((q.split("::")[0], q.split("::")[-1]), []).append(q)
+    for p_ in sorted(cur_adts - pin_adts):
+        c = gone.get((p_.split("::")[0], p_.split("::")[-1]), [])
+        if len(c) == 1 and len([x for x in cur_adts - pin_adts if x.split("::")[-1] == p_.split("::")[-1] and x.split("::")[0] == p_.split("::")[0]]) == 1:
+            aliases[p_] = c[0]
+
+    def apply(n):
+        for a, b in aliases.items():
+            if a in n:
+                n = re.sub(re.escape(a) + IDENT_END, b, n)
+        return n
+    cur2 = {apply(n) for n in cur_fns}
+    gone = {}
+    for q in pin_fns - cur2:
+        if not q.startswith("<"):
+            gone.setdefault(tail(q), []).append(q)
+    new = [n for n in cur2 - pin_fns if not n.startswith("<")]
+    fa = {}
+    for p_ in sorted(new):
+        c = gone.get(tail(p_), [])
+        if len(c) == 1 and len([x for x in new if tail(x) == tail(p_)]) == 1:
+            fa[p_] = c[0]
+    # a function alias is stated on the current spelling (before type aliasing), so that one pass over the text suffices
+    inv = {}
+    for n in cur_fns:
+        inv.setdefault(apply(n), n)
+    for p_, q in fa.items():
+        aliases[inv.get(p_, p_)] = q
+    try:
+        with open(cache, "w") as fh:
+            json.dump(aliases, fh, indent=1, sort_keys=True)
+    except OSError:
+        pass
+    return aliases
+
+
 class Facts:
     def __init__(self, d, crates=None):
+        import re
         self.dir = d
         self.crates = {}
         self.bodies = {}      # name -> MIR body (dict), with '_crate'
@@ -23,14 +98,19 @@ class Facts:
         self.consts = {}
         self.closures = {}
         self.fns = {}
+        self.aliases = compute_aliases(d)
+        alias_res = [(re.compile(re.escape(a) + IDENT_END), b) for a, b in sorted(self.aliases.items(), key=lambda kv: -len(kv[0]))]
         for f in sorted(os.listdir(d)):
-            if not f.endswith(".json") or f == "c_facts.json":
+            if not f.endswith(".json") or f in ("c_facts.json", "aliases.json"):
                 continue
             cname = f.split(".")[0]
             if crates is not None and cname not in crates:
                 continue
             with open(os.path.join(d, f)) as fh:
-                c = json.load(fh)
+                text = fh.read()
+            for rx, b in alias_res:
+                text = rx.sub(b.replace("\\", "\\\\"), text)
+            c = json.loads(text)
             key = f[:-5]
             self.crates[key] = c
             for b in c["bodies"]:
